@@ -410,3 +410,111 @@ def h_interextra_integral(inp, body):
     bad = abs(a + b) > 1e-12 or abs(a - trap) > 1e-12
     return {"reproduced": bool(bad), "observed": {"I(2,1)": a, "I(1,2)": b, "trapezoid(2,1)": trap,
                                                   "table": {"x": [0, 1, 2], "y": [1, 3, 4]}}}
+
+
+def _purity_net():
+    import pandapipes as pp
+    net = pp.create_empty_network(fluid="water")
+    j = pp.create_junctions(net, 8, pn_bar=5, tfluid_k=320, height_m=[0, 1, 2, 3, 4, 5, 6, 7])
+    pp.create_ext_grid(net, j[0], p_bar=6, t_k=350)
+    pp.create_pipe_from_parameters(net, j[0], j[1], 0.3, 0.1, k_mm=0.1, sections=3, u_w_per_m2k=5.0, text_k=280)
+    pp.create_pipe_from_parameters(net, j[1], j[2], 0.2, 0.08, k_mm=0.1, u_w_per_m2k=3.0)
+    pp.create_valve(net, j[2], j[3], "ju", 100.0, opened=True, loss_coefficient=0.5)
+    pp.create_heat_exchanger(net, j[3], j[4], qext_w=2000., inner_diameter_mm=100.0)
+    pp.create_pump(net, j[4], j[5], "P1")
+    pp.create_flow_control(net, j[5], j[6], controlled_mdot_kg_per_s=0.5)
+    pp.create_pipe_from_parameters(net, j[6], j[7], 0.2, 0.08, k_mm=0.1)
+    pp.create_sink(net, j[7], 0.5)
+    pp.create_sink(net, j[2], 0.2, scaling=0.5)
+    pp.create_source(net, j[3], 0.1)
+    # optional column with missing entries (the column the pipe model post-processes)
+    net.pipe["outer_diameter_mm"] = [np.nan, 120.0, np.nan]
+    pp.set_user_pf_options(net, tol_m=1e-6)
+    return net
+
+
+def _snapshot(net):
+    import copy
+    snap = {}
+    for k in list(net.keys()):
+        if isinstance(k, str) and (k.startswith("_") or k.startswith("res_") or k == "converged"):
+            continue
+        v = net[k]
+        try:
+            snap[k] = copy.deepcopy(v)
+        except Exception:  # noqa
+            snap[k] = repr(v)
+    return snap
+
+
+def _diff(a, b):
+    import pandas as pd
+    out = []
+    for k in sorted(set(a) | set(b)):
+        x, y = a.get(k), b.get(k)
+        if k in ("fluid", "std_types", "component_list"):
+            continue
+        if isinstance(x, pd.DataFrame) and isinstance(y, pd.DataFrame):
+            same = x.shape == y.shape and list(x.columns) == list(y.columns) and x.index.equals(y.index)
+            if same:
+                for c in x.columns:
+                    xv, yv = x[c].values, y[c].values
+                    try:
+                        eq = np.array_equal(xv, yv, equal_nan=True)
+                    except TypeError:
+                        eq = all((p == q) or (p != p and q != q) for p, q in zip(xv, yv))
+                    if not eq:
+                        out.append("%s.%s: %s -> %s" % (k, c, xv.tolist(), yv.tolist()))
+            else:
+                out.append("%s: shape/columns/index changed" % k)
+        elif isinstance(x, dict) and isinstance(y, dict):
+            if repr(sorted(x.items(), key=repr)) != repr(sorted(y.items(), key=repr)):
+                out.append("%s: %r -> %r" % (k, x, y))
+        elif k in ("fluid", "std_types", "component_list"):
+            continue
+        elif repr(x) != repr(y):
+            out.append("%s: %r -> %r" % (k, x, y))
+    return out
+
+
+def h_purity_diff(inp, body):
+    """pipeflow in several modes on a net with every kind of element: all non-underscore,
+    non-result entries must be bit-identical afterwards (user_pf_options apart from hyd_flag)"""
+    import pandapipes as pp
+    changes = []
+    for mode, kw in (("hydraulics", {}), ("sequential", {}), ("bidirectional", {}),
+                     ("hydraulics", {"use_numba": False, "friction_model": "colebrook"})):
+        net = _purity_net()
+        before = _snapshot(net)
+        try:
+            pp.pipeflow(net, mode=mode, **kw)
+        except Exception as e:  # noqa
+            changes.append("%s: raised %s" % (mode, type(e).__name__))
+        after = _snapshot(net)
+        if isinstance(after.get("user_pf_options"), dict):
+            after["user_pf_options"] = {k: v for k, v in after["user_pf_options"].items() if k != "hyd_flag"}
+        d = _diff(before, after)
+        changes += ["%s: %s" % (mode, x) for x in d]
+    return {"reproduced": bool([c for c in changes if "raised" not in c]), "observed": {"changes": changes[:10]}}
+
+
+def h_purity_history(inp, body):
+    """a sequence of calculations with different modes / options on ONE net object vs. the same final
+    call on a fresh net: results must be identical"""
+    import pandapipes as pp
+    hist = [dict(mode="sequential"), dict(mode="hydraulics", use_numba=False), dict(mode="bidirectional"),
+            dict(mode="hydraulics", friction_model="swamee-jain")]
+    net = _purity_net()
+    for kw in hist:
+        try:
+            pp.pipeflow(net, **kw)
+        except Exception:  # noqa
+            pass
+    fresh = _purity_net()
+    pp.pipeflow(fresh, **hist[-1])
+    diffs = []
+    for t in [k for k in fresh.keys() if isinstance(k, str) and k.startswith("res_")]:
+        a, b = net[t], fresh[t]
+        if a.shape != b.shape or not np.array_equal(a.values.astype(float), b.values.astype(float), equal_nan=True):
+            diffs.append(t)
+    return {"reproduced": bool(diffs), "observed": {"result_tables_that_differ": diffs}}
